@@ -286,9 +286,50 @@ func c20Gen(args []string) error {
 			variant{"tl (Name Suffix -> Pair)" + mark + " Tail", "Suffix:\n    tc Name | %empty ;\n\nTail:\n    ts | %empty ;\n"},
 		)
 	}
+	// recovering variants: the same shapes with an initializer that may be broken ('error' alone, behind a nonterminal, inside a
+	// parenthesised part), so that recovery pushes empty and non-empty error symbols next to whitespace and reported comments
+	nplain := len(variants)
+	for _, mark := range []string{"", " .afterDecl"} {
+		variants = append(variants,
+			variant{"tl Name Init? ts" + mark, "Init -> Init:\n    te (Name | Broken) ;\n\nBroken -> Problem:\n    error ;\n"},
+			variant{"tl Name (te (Name | error) -> Init)? ts" + mark, ""},
+			variant{"tl Name Init" + mark + " Tail", "Init -> Init:\n    te Name | te error ;\n\nTail:\n    ts | %empty ;\n"},
+			variant{"tl Name Names Init? ts" + mark, "Names:\n    Names Name | %empty ;\n\nInit -> Init:\n    te Broken ;\n\nBroken -> Problem:\n    Name | error ;\n"},
+		)
+	}
 	var items []*evItem
 	for i, v := range variants {
 		pkg := fmt.Sprintf("w%d", i)
+		if i >= nplain {
+			tm := fmt.Sprintf("language %s(go);\n\npackage = \"rt/%s\"\neventBased = true\nfixWhitespace = true\n\n:: lexer\n\nWS: /[ \\n]+/ (space)\nComment: /#[a-z]*/ (space)\n"+
+				"invalid_token:\nerror:\ntl: /l/\ntn: /n/\ntc: /c/\nts: /;/\nto: /o/\nte: /=/\n\n:: parser\n\n%%inject Comment -> Comment;\n%%inject invalid_token -> Invalid;\n\n%%input S;\n\nS -> Root:\n    Item+ ;\n\nItem:\n    Decl | Outer ;\n\n"+
+				"Outer -> Outer:\n    to Decl ;\n\nDecl -> Decl:\n    %s ;\n\nName -> Name:\n    tn ;\n\n%s", pkg, pkg, v.decl, v.extra) + c20RecAdapter
+			it := &evItem{Pkg: pkg, TM: tm}
+			for k := 0; k < nt; k++ {
+				var sb strings.Builder
+				sp := func() {
+					sb.WriteString([]string{" #x ", "\n#y\n", "  ", " ", " ", ""}[r.Intn(6)])
+				}
+				for d := 0; d < 1+r.Intn(3); d++ {
+					// a declaration "l n [n n] = n ;" with elements dropped, doubled or replaced by an invalid character
+					for _, tok := range []string{"o", "l", "n", "n", "=", "n", ";"} {
+						switch {
+						case (tok == "o" || tok == "n") && r.Intn(2) == 0, tok != "o" && r.Intn(7) == 0:
+							continue
+						case r.Intn(12) == 0:
+							tok = "x"
+						case r.Intn(14) == 0:
+							tok = tok + " " + tok
+						}
+						sb.WriteString(tok)
+						sp()
+					}
+				}
+				it.Texts = append(it.Texts, sb.String())
+			}
+			items = append(items, it)
+			continue
+		}
 		tm := fmt.Sprintf("language %s(go);\n\npackage = \"rt/%s\"\neventBased = true\nfixWhitespace = true\n\n:: lexer\n\nWS: /[ \\n]+/ (space)\nComment: /#[a-z]*/ (space)\n"+
 			"tl: /l/\ntn: /n/\ntc: /c/\nts: /;/\nto: /o/\n\n:: parser\n\n%%inject Comment -> Comment;\n\n%%input S;\n\nS -> Root:\n    Item+ ;\n\nItem:\n    Decl | Outer ;\n\n"+
 			"Outer -> Outer:\n    to Decl ;\n\nDecl -> Decl:\n    %s ;\n\nName -> Name:\n    tn ;\n\n%s", pkg, pkg, v.decl, v.extra) + c02sAdapter
@@ -362,7 +403,7 @@ func c20Gen(args []string) error {
 		for k, text := range it.Texts {
 			c := &c20Case{ID: id, Kind: "parse", Parser: "generated-fixws", Origin: variants[i].decl, Len: len(text), Ev: [][3]int{}, Parent: []int{}, Children: [][]int{}, Errs: [][2]int{}, TextB64: b64(text)}
 			id++
-			if it.Errs[k] != "" {
+			if it.Errs[k] != "" && (i < nplain || strings.HasPrefix(it.Errs[k], "panic:")) {
 				c.Crash = "sentence rejected: " + it.Errs[k]
 			}
 			for _, ev := range it.Events[k] {
@@ -381,6 +422,9 @@ func c20Gen(args []string) error {
 	}
 	return w.Close()
 }
+
+// c20RecAdapter is c02sAdapter for a recovering parser: every syntax error is accepted and recovery goes on.
+var c20RecAdapter = strings.Replace(c02sAdapter, "p.Init(func(t NodeType", "p.Init(func(SyntaxError) bool { return true }, func(t NodeType", 1)
 
 // ---- C29 on the shipped cancellable parsers: cancel from the listener at chosen events
 
@@ -404,14 +448,17 @@ func c29RunOne(parser, text string, cancelAt int) (row []int, bad string) {
 	ctx, cancel := context.WithCancel(context.Background())
 	defer cancel()
 	events, at := 0, -1
+	// The shipped parsers do not expose their shift counter; listener events give a lower bound: between two shifts the parsers
+	// report fewer than c29EventsPerShift events on the texts used here (shallow nesting), so floor(e2/64) - floor(e1/64) - 1
+	// never exceeds the number of shifts between the moments with e1 and e2 events.
 	if cancelAt == 0 {
-		at = 0
+		at = 1
 		cancel()
 	}
 	on := func() {
 		events++
 		if events == cancelAt {
-			at = 0
+			at = events/c29EventsPerShift + 1
 			cancel()
 		}
 	}
@@ -446,8 +493,10 @@ func c29RunOne(parser, text string, cancelAt int) (row []int, bad string) {
 	default:
 		kind = 0
 	}
-	return []int{kind, events, 0, at}, ""
+	return []int{kind, events, events / c29EventsPerShift, at}, ""
 }
+
+const c29EventsPerShift = 64
 
 // c29-shipped <out.ndjson> <stride>
 func c29Shipped(args []string) error {
@@ -460,6 +509,13 @@ func c29Shipped(args []string) error {
 	for k := 0; k < 6; k++ {
 		jsTexts = append(jsTexts, strings.Repeat("a = 1;\n", k*3)+strings.Repeat("f((a, b) => a + b, async (x) => x / 2, /re/.test(s) ? (y) => y : z);\n", 60))
 		testTexts = append(testTexts, strings.Repeat("decl1(a) ", 100+k*7)+strings.Repeat("eval(4.1 as 2 + 3 + 4 + 5) decl2 ", 40))
+	}
+	// long texts (more than 512 * 64 events), cancelled at a few points only: a parse that ignores the cancellation is seen to
+	// run on for more than 512 shifts. One well-formed, two with a recoverable syntax error every few tokens.
+	long := map[string]bool{}
+	for _, t := range []string{strings.Repeat("a = b + 1;\n", 16000), strings.Repeat("a = ;\n", 24000), strings.Repeat("f(a, b c);\nx = 1;\n", 12000)} {
+		long[t] = true
+		jsTexts = append(jsTexts, t)
 	}
 	b, err := os.ReadFile(filepath.Join(repoDir(), "parsers", "tm", "textmapper.tm"))
 	if err == nil {
@@ -476,7 +532,15 @@ func c29Shipped(args []string) error {
 				row.Bad = append(row.Bad, bad)
 			}
 			rows := [][]int{base}
-			for k := ti % stride; k <= base[1]+1; k += stride {
+			points := []int{}
+			if long[text] {
+				points = []int{0, 1, 10, 1000, 5000}
+			} else {
+				for k := ti % stride; k <= base[1]+1; k += stride {
+					points = append(points, k)
+				}
+			}
+			for _, k := range points {
 				r, bad := c29RunOne(set.parser, text, k)
 				if bad != "" && len(row.Bad) < 10 {
 					row.Bad = append(row.Bad, fmt.Sprintf("text %d cancel at %d: %s", ti, k, bad))
